@@ -51,7 +51,9 @@ def _case(draw, tier):
         n["async_handler"] = prob(draw, 0.4)  # `async def` handler: its awaited result decides, not the coroutine object
         ans = {}
         for o in n["outs"]:
-            if prob(draw, 0.15):
+            if len(n["outs"]) == 1 and prob(draw, 0.12):
+                ans[o] = {o: ["ans", n["name"], o]}  # the answer IS a dict whose only key happens to be the output's name
+            elif prob(draw, 0.15):
                 ans[o] = {"__amb__": f"{n['name']}.{o}"}  # a response whose `!=` has no truth value (array-like)
             else:
                 ans[o] = draw(st.sampled_from(FALSY)) if prob(draw, 0.25) else ["ans", n["name"], o]
